@@ -158,7 +158,7 @@ func orderAndCopies(e *Env) {
 		effTimeout = 60 * time.Second
 	}
 	longLeft := g.W(6, 2, 2) // invocations that sleep 1.2-3 x the timeout
-	s := startSession(e, ClientOpts{Nick: "me", Flood: true, Track: g.Pct(30), PingFreq: []time.Duration{0, 3 * time.Second}[g.Intn(2)], Timeout: timeout},
+	s := startSession(e, g.Knobs(ClientOpts{Nick: "me", Flood: true, Track: g.Pct(30), PingFreq: []time.Duration{0, 3 * time.Second}[g.Intn(2)], Timeout: timeout}),
 		func(l *simnet.Link) { l.ChunkMode = g.Intn(4); l.Window = []int{0, 0, 0, 16, 64, 300}[g.Intn(6)] })
 	longBudget := time.Duration(longLeft) * 3 * effTimeout
 	// replace the default scripted server: registration, then the stream with
@@ -541,7 +541,7 @@ func misbehave(e *Env) {
 			}
 		}
 	}
-	s := startSession(e, o, func(l *simnet.Link) { l.ChunkMode = g.Intn(4); l.Window = []int{0, 0, 0, 16, 64, 300}[g.Intn(6)] })
+	s := startSession(e, g.Knobs(o), func(l *simnet.Link) { l.ChunkMode = g.Intn(4); l.Window = []int{0, 0, 0, 16, 64, 300}[g.Intn(6)] })
 	e.Log.Keep = true
 	n := g.Range(1, 40)
 	// sometimes a background handler that never returns for ANY event, and many
@@ -798,7 +798,7 @@ type hReg struct {
 func handlerHistory(e *Env) {
 	g := G{e.S}
 	names := []string{"foo", "bar", "baz"}[:g.Range(1, 3)]
-	s := startSession(e, ClientOpts{Nick: "me", Flood: true}, func(l *simnet.Link) { l.ChunkMode = g.Intn(4); l.Window = []int{0, 0, 0, 16, 64, 300}[g.Intn(6)] })
+	s := startSession(e, g.Knobs(ClientOpts{Nick: "me", Flood: true}), func(l *simnet.Link) { l.ChunkMode = g.Intn(4); l.Window = []int{0, 0, 0, 16, 64, 300}[g.Intn(6)] })
 	var regs []*hReg
 	type evt struct {
 		seq     int
